@@ -534,7 +534,7 @@ def rule_SO1(ctx, rep):
                     rep.bad('SO1', fn, e.node, f'the results are not produced one per element of {lst} in list order (filtered or nested comprehension)')
                 continue
             if e.slot[0] == 'append':
-                n += 1
+                n += len(_appends(fn, e.slot[1], b.node))
                 if not any(g for g in e.guards if False):
                     # appended inside the loop over the sender list: order kept only if every iteration appends exactly once
                     stores = _appends(fn, e.slot[1], b.node)
@@ -594,7 +594,10 @@ def _every_path_appends_once(body, cont):
                 a, b = count(s.body), count(s.orelse)
                 acc = {x + y for x in acc for y in a | b}
             elif isinstance(s, (ast.For, ast.While)):
-                return {-1}
+                if any(isinstance(c, ast.Call) and isinstance(c.func, ast.Attribute) and c.func.attr in ('append', 'extend', 'insert', 'pop') and isinstance(c.func.value, ast.Name)
+                       and c.func.value.id == cont for c in ast.walk(s)):
+                    return {-1}
+                # an inner loop that does not touch the result list (dealing the shares) adds nothing
             else:
                 k = sum(1 for c in ast.walk(s) if isinstance(c, ast.Call) and isinstance(c.func, ast.Attribute) and c.func.attr == 'append'
                         and isinstance(c.func.value, ast.Name) and c.func.value.id == cont)
